@@ -176,6 +176,7 @@ class Sign(Engine):
         self.chain = plan['config']['chain']
         seams.select(self.chain)
         self.keys = []
+        self.funding = None
         try:
             for i, st in enumerate(plan['steps']):
                 ctx.cur_step = i
@@ -569,6 +570,25 @@ class Sign(Engine):
         ctx.check((gr, gs) == (r, s), 'C14.recover', 'compact signature does not carry (r, low s) of the planned nonce', **det)
         Qr = EC.recover(z, gr, gs, (raw[0] - 27) & 3)
         ctx.check(Qr == k['Q'], 'C14.recover', 'reference public-key recovery from the compact signature does not give the signer key', **det)
+        # the library's own recovery: the same point in the encoding the header byte announces, for
+        # every header flavour of this (r, s) - the other compression flag gives the other encoding, the
+        # other recovery id another (or no) key, never this one
+        for hdr in ((raw[0], raw[0] ^ 4, raw[0] ^ 1) if a['perturb'] % 3 == 0 else (raw[0],)):
+            rid, cflag = (hdr - 27) & 3, bool((hdr - 27) & 4)
+            Qw = EC.recover(z, gr, gs, rid)
+            try:
+                pk = K.CPubKey.recover_compact(msg.GetHash(), bytes([hdr]) + raw[1:])
+            except Exception as e:
+                pk = 'raised %s' % type(e).__name__
+            if Qw is None:
+                ctx.check(pk is False or pk is None or (isinstance(pk, bytes) and not pk.is_fullyvalid), 'C14.recover',
+                          'CPubKey.recover_compact returned a key where the reference finds no curve point (header %d)' % hdr, hdr_kind=('own' if hdr == raw[0] else 'altered'), **det)
+            else:
+                ctx.check(isinstance(pk, bytes) and bytes(pk) == EC.point_encode(Qw, cflag), 'C14.recover',
+                          'CPubKey.recover_compact with header byte %d returned %s, reference recovery gives %s...'
+                          % (hdr, (bytes(pk).hex()[:16] + '... (%d bytes)' % len(pk)) if isinstance(pk, bytes) else repr(pk), EC.point_encode(Qw, cflag).hex()[:16]),
+                          hdr_kind=('own' if hdr == raw[0] else 'altered'), **det)
+        ctx.probe('library-recovery-all-header-flavours')
         addr = W.P2PKHBitcoinAddress.from_pubkey(K.CPubKey(k['pub']))
         try:
             ok = SM.VerifyMessage(addr, msg, sig64)
@@ -656,11 +676,35 @@ class Sign(Engine):
         tx = conv.tx_from_spec(spec, mutable)
         try:
             SE.VerifyScript(S.CScript(script_sig), S.CScript(spk), tx, idx, flags=(SE.SCRIPT_VERIFY_P2SH,) if p2sh else ())
-            return True, None
+            res = (True, None)
         except self.C.ValidationError as e:
-            return False, type(e).__name__
+            res = (False, type(e).__name__)
         except Exception as e:
-            return False, 'UNEXPECTED:' + type(e).__name__
+            res = (False, 'UNEXPECTED:' + type(e).__name__)
+        if self.funding is not None and not p2sh and idx < len(spec['vin']):
+            # the same question put through the transaction-level entry point: the funding transaction is
+            # looked up by the input's outpoint (a relay may have edited that outpoint, too)
+            try:
+                SE.VerifySignature(conv.tx_from_spec(self.funding, False), tx, idx)
+                r2 = (True, None)
+            except self.C.ValidationError as e:
+                r2 = (False, '%s(%s)' % (type(e).__name__, e))
+            except Exception as e:
+                r2 = (False, 'UNEXPECTED:' + type(e).__name__)
+            me = spec['vin'][idx]
+            pn = len(self.funding['vout']) - 1
+            if me['hash'] != RW.txid(self.funding).hex() or me['n'] > pn:
+                want2 = False            # the outpoint no longer names an output of the funding transaction
+            elif me['n'] != pn:
+                want2 = None             # it names another output of it: another script, not this question
+                self.ctx.probe('verify-signature-other-output')
+            else:
+                want2 = res[0]
+            self.ctx.check(want2 is None or (r2[0] == want2 and not (r2[1] or '').startswith('UNEXPECTED')), 'C05.accept' if want2 else 'C05.committed-fails',
+                           'VerifySignature (funding transaction looked up by outpoint) says %s where VerifyScript on the same input says %s'
+                           % ('accept' if r2[0] else 'reject: %s' % r2[1], 'accept' if res[0] else 'reject: %s' % res[1]), entry='VerifySignature')
+            self.ctx.probe('verify-signature-entry-point')
+        return res
 
     def _op_spend(self, a):
         ctx, S = self.ctx, self.S
@@ -680,6 +724,21 @@ class Sign(Engine):
         for i, x in enumerate(tx['vin']):
             x['n'] = (x['n'] & 0xffffff00) | i
         idx = a['input'] % len(tx['vin'])
+        self.funding = None
+        if redeem is None and a['edit_seed'][3] % 3 == 0:
+            # this spend refers to a real funding transaction: outpoint = (its txid, position of the script)
+            pn = a['edit_seed'][2] % 3
+            self.funding = {'version': 2, 'vin': [copy.deepcopy(a['edit_seed'][0])], 'locktime': 0, 'wit': None,
+                            'vout': [copy.deepcopy(a['edit_seed'][1]) for _ in range(pn)] + [{'value': a['edit_seed'][2] % (21 * 10 ** 14), 'script': spk.hex()}]}
+            tx['vin'][idx]['hash'] = RW.txid(self.funding).hex()
+            tx['vin'][idx]['n'] = pn
+            if a['edit_seed'][3] % 9 in (3, 6):
+                # a funding transaction with witness data has two hashes; outpoints name it by its txid only.
+                # In one variant the spender was handed the witness hash: the signature is fine, the link is not.
+                self.funding['wit'] = [['aa', 'bbcc']]
+                if a['edit_seed'][3] % 9 == 3:
+                    tx['vin'][idx]['hash'] = RW.wtxid(self.funding).hex()
+                    ctx.fault('outpoint-names-funding-by-witness-hash')
         hts = [a['hashtype']] * nsig
         if a.get('mixed_ht') and nsig > 1:
             hts = [a['mixed_ht'][j % 3] for j in range(nsig)]
